@@ -1,7 +1,7 @@
 (** Extraction of the executable model to OCaml, for the correspondence checks.
     Only [ExtrOcamlBasic] (bool, option, list, prod, unit, sumbool) is used;
     [nat], [N], [Z], [positive] stay inductive; no [Extract Constant]. *)
-From OrxPar Require Import Base Settings.
+From OrxPar Require Import Base Settings Spec Pipeline PipelineP Machine Kernels Program Exec.
 From Coq Require Import ExtrOcamlBasic DecimalN DecimalZ.
 From Coq Require Extraction.
 
@@ -9,9 +9,12 @@ Definition n_to_uint := N.to_uint.
 Definition n_of_uint := N.of_uint.
 Definition z_to_int := Z.to_int.
 Definition z_of_int := Z.of_int.
+Definition nat_of_n := N.to_nat.
+Definition n_of_nat := N.of_nat.
 
 Extraction Language OCaml.
 Extraction "model.ml"
-  n_to_uint n_of_uint z_to_int z_of_int
+  n_to_uint n_of_uint z_to_int z_of_int nat_of_n n_of_nat
   nt_of_usize cs_of_usize is_sequential
-  runner_new do_spawn next_chunk_size r_inner r_is_exact r_max_threads.
+  runner_new do_spawn next_chunk_size r_inner r_is_exact r_max_threads
+  exec mkCase kmerge next_kind eager.
